@@ -1,8 +1,11 @@
 from check import run_diff_property
+import lib
 
 CFG = dict(
-    streams=[('ja3', 3000, 40000)],
-    oracle_ops={'ja3spec'},
+    streams=[('ja3', 3000, 40000), ('e2e', 150, 2500)],
+    oracle_ops={'ja3spec', 'e2e'},
+    twophase_ops={'e2e'},
+    project={'e2e': lib.proj_e2e({'ja3', 'st'})},
     rule=("structured well-formed ClientHellos (list lengths 0,1,2,3..130 with GREASE forced first/last/only/all, "
           "no-extension hellos, SNI lengths swept over 250..260 and 505..520) serialised and pushed through "
           "tlsx+ja3.Bare / fingerprint.JA3Fingerprint; plus truncations, bit flips, trailing bytes and random bytes; "
